@@ -5,7 +5,7 @@
    genuine packets, coverage, with the step / attach / not-covered lemmas as hypotheses) and proves the two session
    theorems once over it.  Part N instantiates it for No-Code (re-deriving the statements of C02Session.v as a
    sanity check), part R for the oracle schemes on the object invariant of Proofs/C02RS.v. *)
-From FluteV Require Import Model.Partition Spec.C07Spec Proofs.PartitionProofs Model.ObjRecv Model.Recv
+From FluteV Require Import Proofs.D48Step Model.Partition Spec.C07Spec Proofs.PartitionProofs Model.ObjRecv Model.Recv
   Spec.RecvSpec Spec.SessionSpec Proofs.RecvProofs Proofs.SessionProofs Proofs.C02Full Proofs.C09Full
   Proofs.C02Session Proofs.C02RS.
 From Coq Require Import Lia.
@@ -654,7 +654,8 @@ Section RSInst.
     unfold init_partition at 1. unfold nb_block at 1. prj.
     change (0 <? 0 + N.of_nat (length (@nil bdec))) with false. cbv iota beta. rewrite Hpart. cbv iota beta.
     unfold init_writer. prj. rewrite Hnc, Hbld. cbv iota beta zeta.
-    rewrite Hopen. cbn [negb]. destruct (N.eqb_spec Lc 0) as [G|_]; [lia|]. prj.
+    rewrite Hopen. cbn [negb]. destruct (N.eqb_spec Lc 0) as [G|HL0]; [lia|]. prj.
+    try (d48_skip HL0).
     match goal with |- context [push_from_cache E ?x ?y] => set (o3 := x); set (c3 := y) end.
     pose proof (PF n_pos) as Hn.
     set (m := N.to_nat (N.min n 2048)) in *.
@@ -986,7 +987,8 @@ Section RSInst.
     unfold init_partition at 1. unfold nb_block at 1. prj.
     destruct (N.ltb_spec 0 (0 + N.of_nat (length bl))) as [_|G]; [|lia].
     unfold init_writer. prj. rewrite Hnc, A1. cbv iota beta zeta.
-    rewrite A2. cbn [negb]. destruct (N.eqb_spec Lc 0) as [G|_]; [lia|]. prj.
+    rewrite A2. cbn [negb]. destruct (N.eqb_spec Lc 0) as [G|HL0]; [lia|]. prj.
+    try (d48_skip HL0).
     match goal with |- context [push_from_cache E ?x ?y] => set (o3 := x); set (c3 := y) end.
     assert (Hnb : 0 < nb_block o3) by (unfold nb_block, o3; prj; lia).
     assert (I3 : push_from_cache E o3 c3 = (o3, c3)).
